@@ -22,6 +22,8 @@ def monitors(ctx):
 
 def run(ctx):
     monitor.enable(*monitors(ctx))
+    from .. import w_suite
+    w_suite.maybe(ctx)      # thorough tier: the repository's own tests under this property's monitors
     ctx.floor('C16.merge', 300)
     ctx.floor('C16.after_raise', 100)
     ctx.floor('C16.aliasing_checked', 500)
